@@ -75,7 +75,7 @@ func c11Check(c c11Case) string {
 	}
 	faulted := c.Faults.ReaderFailAt >= 0 || c.Faults.WriterFailAt >= 0 || c.Faults.CallbackFailAt >= 0
 	switch c.Cancel.Kind {
-	case "pre", "deadline":
+	case "pre", "deadline", "customctx-cancel":
 		if res.Err.Nil {
 			return head + "the context was cancelled before the call but the call returned nil"
 		}
@@ -180,7 +180,10 @@ func c11Doc(t *rapid.T, op string, nroots int, failing map[int]bool, heading boo
 		bad := failing[i]
 		kind := 0
 		if bad {
-			kind = rapid.IntRange(0, 3).Draw(t, "failkind")
+			kind = rapid.IntRange(0, 4).Draw(t, "failkind")
+		}
+		if bad && kind == 4 && (op == "verify" || op == "mkdir") {
+			root = strings.Repeat("L", 250) + fmt.Sprintf("%06d", i)
 		}
 		rootLine := "- " + root
 		kidIndent := "  "
@@ -192,6 +195,8 @@ func c11Doc(t *rapid.T, op string, nroots int, failing map[int]bool, heading boo
 		switch {
 		case bad && kind == 0: // parse error in the block
 			sb.WriteString(kidIndent + "x no bullet\n")
+		case bad && kind == 4 && (op == "verify" || op == "mkdir"): // the filesystem refuses the root itself (its name has 256 bytes, see above)
+			sb.WriteString(kidIndent + "- " + kid + "\n")
 		case bad && kind == 3: // an item nested two levels deeper than the row before it (the unit is known from earlier blocks)
 			sb.WriteString(kidIndent + "- " + kid + "\n" + kidIndent + "    - too-deep\n" + kidIndent + "  - after\n")
 		case bad && kind == 1 && (op == "dryrun" || op == "verify" || op == "mkdir"): // validation error
@@ -238,7 +243,11 @@ func c11Gen(race bool) *rapid.Generator[c11Case] {
 		case 2:
 			c.Faults.CallbackFailAt = rapid.IntRange(0, 3*nroots).Draw(t, "cbAt")
 		}
-		switch rapid.IntRange(0, 7).Draw(t, "cancel") {
+		switch rapid.IntRange(0, 9).Draw(t, "cancel") {
+		case 8:
+			c.Cancel = ops.Cancel{Kind: "customctx"}
+		case 9:
+			c.Cancel = ops.Cancel{Kind: "customctx-cancel"}
 		case 0:
 			c.Cancel = ops.Cancel{Kind: "pre"}
 		case 1, 2:
